@@ -1606,8 +1606,14 @@ def wrapper_q_squashed_on_load(case, outcome, atoms):
     if not (_wrap_under_conn(case.get('muts') or []) or
             _spec_wrap_under_conn([case.get('spec'), case.get('seq')])):
         return atoms
-    return [a for a in atoms if a[0] not in ('str_differs', 'value_differs',
-                                             'simulated_signature_differs', 'sql_differs')]
+    # (the squashed constraint looks changed, is re-created, and a '%' literal in its
+    # condition then runs into F-C01-12's formatting error: the loaded SQL fails)
+    pct = _has_percent_literal([case.get('spec'), case.get('seq'), case.get('muts')])
+    return [a for a in atoms
+            if a[0] not in ('str_differs', 'value_differs', 'simulated_signature_differs',
+                            'sql_differs') and
+            not (pct and a[0] == 'loaded_sql_fails' and a[1] == 'TypeError' and
+                 'not enough arguments for format string' in str(a[2]))]
 
 
 # ---------------------------------------------------------------------------
